@@ -393,7 +393,11 @@ func constructEd25519Key(data []byte) (types.SigningPublicKey, error) {
 	}
 
 	// Create Ed25519PublicKey from the bytes using safe constructor
-	ed25519_key, err := ed25519.NewEd25519PublicKey(data)
+	// Copy: NewEd25519PublicKey wraps the slice it is given, and data usually
+	// points into the caller's parse buffer.
+	keyData := make([]byte, len(data))
+	copy(keyData, data)
+	ed25519_key, err := ed25519.NewEd25519PublicKey(keyData)
 	if err != nil {
 		return nil, oops.Wrapf(err, "failed to construct Ed25519 public key")
 	}
@@ -412,7 +416,11 @@ func constructEd25519PHKey(data []byte) (types.SigningPublicKey, error) {
 	}
 
 	// Create Ed25519PublicKey from the bytes using safe constructor
-	ed25519ph_key, err := ed25519.NewEd25519PublicKey(data)
+	// Copy: NewEd25519PublicKey wraps the slice it is given, and data usually
+	// points into the caller's parse buffer.
+	keyData := make([]byte, len(data))
+	copy(keyData, data)
+	ed25519ph_key, err := ed25519.NewEd25519PublicKey(keyData)
 	if err != nil {
 		return nil, oops.Wrapf(err, "failed to construct Ed25519ph public key")
 	}
